@@ -3,6 +3,7 @@ package flow
 import (
 	"fmt"
 	"go/token"
+	"go/types"
 	"sort"
 	"strings"
 
@@ -300,7 +301,7 @@ func (c *Ctx) writtenOnlyByInit(g *ssa.Global) bool {
 		c.constGlobals = map[*ssa.Global]bool{}
 		written := map[*ssa.Global]bool{}
 		for fn := range c.AllRepoFuncs() {
-			if fn.Name() == "init" || strings.HasPrefix(fn.Name(), "init#") {
+			if fn.Name() == "init" { // the synthesised package initialiser; a declared func init() is init#k and counts
 				continue
 			}
 			for _, b := range fn.Blocks {
@@ -311,6 +312,10 @@ func (c *Ctx) writtenOnlyByInit(g *ssa.Global) bool {
 							continue
 						}
 						if u, isLoad := in.(*ssa.UnOp); isLoad && u.Op == token.MUL {
+							// a loaded slice / map / pointer shares the table's storage: it must only be read
+							if !readOnlyUses(u, 0) {
+								written[gg] = true
+							}
 							continue
 						}
 						if v, isVal := in.(ssa.Value); isVal && addrOnlyLoaded(v, 0) {
@@ -324,6 +329,86 @@ func (c *Ctx) writtenOnlyByInit(g *ssa.Global) bool {
 		c.writtenGlobals = written
 	}
 	return !c.writtenGlobals[g]
+}
+
+// readOnlyUses: v (a reference-typed value loaded from a table: slice, map, pointer) is only read — indexed or
+// looked up for loading, ranged over, measured, re-sliced under the same condition, compared, or handed to a
+// function of the standard library known not to write through it. Values without reference semantics (strings,
+// numbers, arrays by value, structs without such fields are not followed) are always fine.
+func readOnlyUses(v ssa.Value, depth int) bool {
+	switch v.Type().Underlying().(type) {
+	case *types.Slice, *types.Map, *types.Pointer:
+	default:
+		return true
+	}
+	if depth > 4 || v.Referrers() == nil {
+		return false
+	}
+	for _, r := range *v.Referrers() {
+		switch x := r.(type) {
+		case *ssa.IndexAddr:
+			if !addrOnlyLoaded(x, 0) {
+				return false
+			}
+		case *ssa.Index, *ssa.Lookup, *ssa.Range, *ssa.DebugRef, *ssa.BinOp, *ssa.If:
+		case *ssa.UnOp:
+			if x.Op != token.MUL {
+				return false
+			}
+			if !readOnlyUses(x, depth+1) {
+				return false
+			}
+		case *ssa.Slice:
+			if !readOnlyUses(x, depth+1) {
+				return false
+			}
+		case *ssa.Phi:
+			if !readOnlyUses(x, depth+1) {
+				return false
+			}
+		case *ssa.Call:
+			if bi, ok := x.Call.Value.(*ssa.Builtin); ok {
+				switch bi.Name() {
+				case "len", "cap":
+					continue
+				case "append": // append(dst, table...) reads the table; append(table, …) may write its spare capacity
+					if x.Call.Args[0] == v {
+						return false
+					}
+					continue
+				case "copy":
+					if x.Call.Args[0] == v {
+						return false
+					}
+					continue
+				}
+				return false
+			}
+			f := x.Call.StaticCallee()
+			if f == nil {
+				return false
+			}
+			if inRepo(f) {
+				// a function of the module: its parameter must be read-only in turn
+				ok := false
+				for i, a := range x.Call.Args {
+					if a == v && i < len(origin(f).Params) {
+						ok = readOnlyUses(origin(f).Params[i], depth+1)
+					}
+				}
+				if !ok {
+					return false
+				}
+				continue
+			}
+			if !readOnly[origin(f).String()] && !aliasReturning[origin(f).String()] && !strings.HasPrefix(origin(f).String(), "strings.") && !strings.HasPrefix(origin(f).String(), "(*regexp.Regexp).") {
+				return false
+			}
+		default:
+			return false
+		}
+	}
+	return true
 }
 
 // addrOnlyLoaded: v is an element/field address whose every use is a load (or a further element/field address
